@@ -3,6 +3,62 @@ from . import facts
 from .c03 import ks1, cmux1
 
 
+def acc1(p, res, prefixes):
+    """a big accumulator taken from scratch stages the un-normalised sum for one or several destinations (`vec_znx_big_normalize(dst, .., &tmp, ..)`).  When its limb count is
+    clamped by the limb count of an object (`min(.., X.size() + c)`), every destination it is normalised into has to be that object: the clamp keeps the limbs X can hold (plus
+    guard limbs) and cuts what a wider destination needs - the un-normalised limbs cut off carry into the ones kept (cswap with operands of unequal widths)."""
+    from .cfg import Flow
+    from .sym import Sym, Poly
+    from .rad import _deep_atoms
+    VT = ("deref", "deref_mut", "borrow", "borrow_mut", "as_mut", "as_ref", "into", "from", "clone", "to_ref", "to_mut", "data", "data_mut")
+    n = 0
+    for f in sorted(p.lib_fns(), key=lambda x: x.uid):
+        if f.is_test() or not f.blocks or "test_suite" in f.uid or not f.uid.startswith(prefixes):
+            continue
+        takes = [(bi, t) for bi, t in f.calls() if (f.callee_def(t) or {}).get("n") == "take_vec_znx_big" and len(t["a"]) >= 4]
+        norms = [(bi, t) for bi, t in f.calls() if (f.callee_def(t) or {}).get("n", "").startswith("vec_znx_big_normalize") and len(t["a"]) >= 7]
+        if not takes or not norms:
+            continue
+        flow = Flow(f)
+        vflow = Flow(f, transparent=VT)
+        sym = Sym(f, flow)
+        vsym = Sym(f, vflow)
+        for tb, tt in takes:
+            sz = sym.operand(tt["a"][-1])
+            clamp = set()
+            for a in _deep_atoms(sz):
+                if a[0] == "f" and a[1] == "min" and len(a[2]) == 2:
+                    for k in a[2]:
+                        for b in _deep_atoms(Poly(dict(k))):
+                            if b[0] == "f" and b[1] == "size" and len(b[2]) == 1:
+                                for o in _deep_atoms(Poly(dict(b[2][0]))):
+                                    if o[0] == "p":
+                                        clamp.add(("param", o[1]))
+                                    elif o[0] == "call" and o[1] == f.uid:
+                                        # the object a view call was applied to (`tmp.size()` of a taken object: the take itself)
+                                        for r in vflow.roots(f.blocks[o[2]]["t"]["d"][0]) if f.blocks[o[2]]["t"].get("d") else ():
+                                            clamp.add((r[0], r[1]))
+                                        clamp.add(("call", o[2]))
+            for nb, nt in norms:
+                if not any(r[0] == "call" and r[1] == tb for r in vflow.op_roots(nt["a"][5])):
+                    continue
+                n += 1
+                droots = {(r[0], r[1]) for r in vflow.op_roots(nt["a"][1])}
+                dst = repr(vsym.operand(nt["a"][1]))
+                # the accumulator's own producer (`res_big.size()`) is not a destination
+                objs = {o for o in clamp if not (o[0] == "call" and "big" in (f.callee_def(f.blocks[o[1]]["t"]) or {}).get("n", "") + f.local_ty(f.blocks[o[1]]["t"]["d"][0])["s"].lower())} if clamp else set()
+                if objs and not (droots & objs) and all(o[0] == "call" for o in objs) and all(r[0] == "param" for r in droots):
+                    # clamped by a local image of an operand (its copy in another radix), normalised into a parameter: which operand the image stands for is not tracked
+                    res.undec("ACC-1", "%s: accumulator clamped by a local object, normalised into a parameter" % f.pretty)
+                elif objs and not (droots & objs):
+                    res.bad("ACC-1", f.pretty, "accumulator-clamped-by-another-object:%s" % dst,
+                            "%s takes a big accumulator of %r limbs - clamped by the limb count of %s - and normalises it into `%s`: a destination wider than the object the clamp was "
+                            "taken from loses its low limbs, and the un-normalised limbs cut off no longer carry into the ones kept" % (f.pretty, sz, ", ".join(sorted("%s %s" % o for o in objs)), dst), site=f.where(nt["l"]))
+                else:
+                    res.ok("ACC-1", {"fn": f.pretty, "limbs": repr(sz), "dst": dst} if n % 4 == 1 else None)
+    return n
+
+
 def run(res, tier):
     res.level = "other"
     res.explanation = ("Only structural clauses of C04 are decided: the digit loop of the external product selects the operand limbs with step == dsize and offset + limb offset == dsize - 1 on "
@@ -14,6 +70,7 @@ def run(res, tier):
     res.rule("CMUX-1", "cmux / cmux_assign / cmux_assign_neg: the operand added after the product is the subtrahend of the difference that was multiplied")
     res.rule("WR-4", "raw-slice vmp kernels taking limb_offset: the zero fill starts one stride after the last written limb")
     res.rule("ROW-1", "row accessors X.at(row, ..) / X.at_mut(row, ..) in a row loop: the loop bound stays within X.dnum() under the comparisons that dominate the access")
+    res.rule("ACC-1", "a big accumulator whose limb count is clamped by an object's limb count is normalised only into that object")
     res.rule("UNIT-1", "comparisons, min and max between limb counts, key row counts and bit precisions (limbs = rows * dsize, bits = limbs * base2k) relate quantities of the same unit")
     res.rule("RAD-1", "a cross-radix conversion skipped / taken on a radix comparison is guarded by the comparison of exactly its input and output radices")
     res.rule("RAD-2", "no call of an operation asserting equal radices of two arguments sits on a branch whose guards imply that they differ (cswap / cmux cross-radix branches)")
@@ -42,4 +99,6 @@ def run(res, tier):
         res.floor("ROW-1", "row accessors in row loops", nrow, 17)
         nu = rad.unit1(p, res, ("poulpy_core::external_product", "poulpy_core::api::external_product", "poulpy_bin_fhe::bdd_arithmetic"))
         res.floor("UNIT-1", "comparisons / min / max between quantities of known units", nu, 9)
+        na = acc1(p, res, ("poulpy_core", "poulpy_bin_fhe", "poulpy_ckks"))
+        res.floor("ACC-1", "(scratch big accumulator, normalisation destination) pairs", na, 8)
         res.fn_count += n + nc
